@@ -43,7 +43,7 @@ PROPS = {
     },
     "C07": {
         "modules": ["Gca.Props.C07"],
-        "tie": ["verify_keys_server", "prefix_registration", "layout_registration", "save_gca_key_order"],
+        "tie": ["verify_keys_server", "prefix_registration", "layout_registration", "save_gca_key_order", "single_sections", "locks_entries_ok"],
         "jobs": [srv("C07")],
         "rule": "sequences of registrations (valid, wrong signer, altered key, replays, after restart) interleaved with authorizations/server authorizations/migration orders signed by the temp key, losers and the winner; non-trivial = not refused",
         "trusted_base": SRV_TB + ["register is one critical section (lock skeleton of registerGCA)"],
@@ -86,7 +86,7 @@ PROPS = {
     },
     "C11": {
         "modules": ["Gca.Props.C11"],
-        "tie": ["reply_min_length", "reply_freshness", "verify_keys_client"],
+        "tie": ["reply_min_length", "reply_freshness", "verify_keys_client", "locks_entries_ok", "locks_assuming_ok", "locks_ctors_ok"],
         "jobs": [{"name": "round", "cmd": ["round", "{seed}"], "quick": [28, 6], "thorough": [300, 10]},
                  {"name": "reply", "cmd": ["reply", "{seed}"], "quick": [8, 60], "thorough": [120, 200]}],
         "rule": "real sync rounds of a real client against 1..5 scripted servers (valid reply, reset, short read, foreign signature, random bytes; banned and all-banned configurations) with the dial order observed; after every round: mutex try-lock, identity, server map in memory and on disk, retransmitted datagrams at a UDP sink; client restarts in between; plus the reply-parser run (lengths 0..900 incl. rogue correctly signed bodies); non-trivial = round synced / parser accepted",
@@ -132,7 +132,7 @@ PROPS = {
     },
     "C19": {
         "modules": ["Gca.Props.C19"],
-        "tie": ["rate_expiry", "rate_limit", "rate_kinds"],
+        "tie": ["rate_expiry", "rate_limit", "rate_kinds", "single_sections", "locks_entries_ok"],
         "jobs": [{"name": "rl", "cmd": ["rl", "{seed}"], "quick": [32, 80], "thorough": [400, 200]}],
         "rule": "sequential call sequences with exact timestamps read back (grid of limit x window), and every 4th scenario 1..64 concurrent callers judged with caller-side intervals by the driver's evaluation of the C19 conclusions; non-trivial = call admitted",
         "trusted_base": [KERNEL, TRANSLATOR, HARNESS, "monotonic time.Now(); Allow() is one critical section (lock skeleton)"],
